@@ -77,3 +77,15 @@ Proof.
     vm_compute in E. injection E as <- <-. vm_compute. repeat split.
   - vm_compute in E. discriminate.
 Qed.
+
+(* ---------- the unrepaired check_split_points (before fixes/07_cq_split_points_comparator.patch) ---------- *)
+(* quantiles_sorted_view::check_split_points compared with a default-constructed Comparator() instead of the view's
+   comparator instance.  For a sketch whose comparator instance orders the other way (the harness kind 3: DirCmp with
+   the descending flag, items negated) that is the check under the REVERSED order: increasing split points were refused
+   and decreasing ones answered. *)
+Definition splits_ok_default_cmp (sp : list Z) : bool := splits_ok Z (fun a b => Z.ltb b a) sp.
+
+Theorem cq_split_check_default_comparator_refuted :
+  exists sp, splits_ok Z Z.ltb sp = true /\ splits_ok_default_cmp sp = false /\
+             splits_ok Z Z.ltb (rev sp) = false /\ splits_ok_default_cmp (rev sp) = true.
+Proof. exists [2; 6]. repeat split; reflexivity. Qed.
